@@ -6,6 +6,8 @@ for sid in sys.argv[1:]:
     run = subprocess.run(["/verif/bin/mutant-run", os.path.join(d, "patch.diff"), prop], capture_output=True, text=True)
     line = [l for l in run.stdout.splitlines() if l.startswith("MUTANT")]
     m = json.load(open(d + "/meta.json"))
+    if m.get("neutralised"):
+        print(sid, "neutralised (meta left as it is); now:", run.returncode, (line[0] if line else "")[:120]); continue
     m["checked_with"] = {"cmd": f"bin/mutant-run seeded/{sid}/patch.diff {prop}", "exit": run.returncode, "output": line[0] if line else run.stdout[-300:]}
     m["detected_by_quick_check"] = run.returncode == 1
     json.dump(m, open(d + "/meta.json", "w"), indent=1)
